@@ -15,7 +15,7 @@ Quiescent == ready = <<>>
 \* one of these deviation clauses is excused for THAT property only.
 DevOf(p) == CASE p = "C01" -> {}
               [] p = "C02" -> {"D9"}
-              [] p = "C03" -> {"D7", "D11"}
+              [] p = "C03" -> {"D11"}
               [] p = "C04" -> {"D9"}
               [] p = "C05" -> {}
               [] p = "C06" -> {}
